@@ -206,6 +206,35 @@ class Ctx:
                                     signature=signature or {}))
 
 
+def guarded(fn):
+    """A case function of a harness: an exception escaping from the implementation (a frame inside
+    skgstat) on a generated input is a concrete failing input (`crash`), not an infrastructure failure;
+    anything raised by the harness itself or by the Lean driver still aborts the run."""
+    import functools
+    import traceback
+
+    @functools.wraps(fn)
+    def wrapper(ctx, *args, **kw):
+        try:
+            return fn(ctx, *args, **kw)
+        except InfraError:
+            raise
+        except Exception as e:
+            frames = traceback.extract_tb(e.__traceback__)
+            impl = [f for f in frames if '/skgstat/' in f.filename.replace('\\', '/') and '/harness/' not in f.filename]
+            if not impl:
+                raise
+            case = next((a for a in args if isinstance(a, dict)), None)
+            if case is None:
+                case = dict(args=[repr(a)[:2000] for a in args])
+            last = impl[-1]
+            ctx.violation('crash', '%s: %s (raised at %s:%d in %s)' % (
+                type(e).__name__, str(e)[:300], os.path.basename(last.filename), last.lineno, last.name), case,
+                signature=dict(kind='crash', exception=type(e).__name__))
+            return None
+    return wrapper
+
+
 def jsonable(o):
     if isinstance(o, dict):
         return {str(k): jsonable(v) for k, v in o.items()}
